@@ -27,10 +27,11 @@ class Trampoline:
                 return
         try:
             self._run()
-        finally:
+        except BaseException:
             with self._lock:
                 self._idle = True
                 self._queue.clear()
+            raise
 
     def _run(self) -> None:
         ready: deque[ScheduledItem] = deque()
@@ -51,6 +52,10 @@ class Trampoline:
 
             with self._lock:
                 if len(self._queue) == 0:
+                    # Become idle in the same critical section that found the
+                    # queue empty: an item enqueued by another thread after
+                    # this point starts its own drain instead of being lost.
+                    self._idle = True
                     break
                 item = self._queue.peek()
                 seconds = (item.duetime - item.scheduler.now).total_seconds()
